@@ -68,7 +68,10 @@ const (
 	TypeBoolean
 
 	// Version will be written to the stream and used for compatibility check
-	Version = "1.8"
+	Version = "1.9"
+	// versionWithoutDeleted is the previous stream format, which is still read. It has no deleted flag in the
+	// rule entry, so a rule removed before the store came back active after the load.
+	versionWithoutDeleted = "1.8"
 )
 
 // Catalog used to catalog all AST nodes in a KnowledgeBase.
@@ -250,6 +253,7 @@ func (cat *Catalog) BuildKnowledgeBase() (*KnowledgeBase, error) {
 				Salience:        amet.Salience,
 				WhenScope:       nil,
 				ThenScope:       nil,
+				Deleted:         amet.Deleted,
 			}
 			importTable[amet.AstID] = ruleEntry
 			knowledgeBase.RuleEntries[ruleEntry.RuleName] = ruleEntry
@@ -589,10 +593,11 @@ func (cat *Catalog) ReadCatalogFromReader(reader io.Reader) error {
 
 		return err
 	}
-	if str != Version {
+	if str != Version && str != versionWithoutDeleted {
 
 		return fmt.Errorf("invalid version %s", str)
 	}
+	withoutDeleted := str == versionWithoutDeleted
 
 	// Read the knowledgebase name.
 	str, err = ReadStringFromReader(reader) // V
@@ -647,7 +652,7 @@ func (cat *Catalog) ReadCatalogFromReader(reader io.Reader) error {
 		case TypeFunctionCall:
 			meta = &FunctionCallMeta{}
 		case TypeRuleEntry:
-			meta = &RuleEntryMeta{}
+			meta = &RuleEntryMeta{withoutDeleted: withoutDeleted}
 		case TypeThenExpression:
 			meta = &ThenExpressionMeta{}
 		case TypeThenExpressionList:
@@ -1977,6 +1982,10 @@ type RuleEntryMeta struct {
 	Salience        int
 	WhenScopeID     string
 	ThenScopeID     string
+	Deleted         bool
+
+	// withoutDeleted is set by the catalog reader when the stream has the format that ends after ThenScopeID
+	withoutDeleted bool
 }
 
 // Equals basic function to test equality of two MetaNode
@@ -2003,6 +2012,10 @@ func (meta *RuleEntryMeta) Equals(that Meta) bool {
 			return false
 		}
 		if meta.ThenScopeID != ins.ThenScopeID {
+
+			return false
+		}
+		if meta.Deleted != ins.Deleted {
 
 			return false
 		}
@@ -2053,6 +2066,11 @@ func (meta *RuleEntryMeta) WriteMetaTo(writer io.Writer) error {
 
 		return err
 	}
+	err = WriteBoolToWriter(writer, meta.Deleted)
+	if err != nil {
+
+		return err
+	}
 
 	return nil
 }
@@ -2096,6 +2114,16 @@ func (meta *RuleEntryMeta) ReadMetaFrom(reader io.Reader) error {
 		return err
 	}
 	meta.ThenScopeID = stringFromReader
+	if meta.withoutDeleted {
+
+		return nil
+	}
+	deleted, err := ReadBoolFromReader(reader)
+	if err != nil {
+
+		return err
+	}
+	meta.Deleted = deleted
 
 	return nil
 }
